@@ -646,17 +646,20 @@ def stepTickBegin (s : AState) (t m : Nat) : Option AState :=
     else none
   | _, _ => none
 
+/-- the virtual clock may not jump past a pending deadline of this actor -/
+def timeOk (s : AState) (t : Nat) : Bool :=
+  (match s.busy with
+   | some b => decide (s.clock ≥ b) || decide (t ≤ b)
+   | none => true)
+  && (match s.phase with
+      | .handling _ _ (some dl) => decide (s.clock ≥ dl) || decide (t ≤ dl)
+      | _ => true)
+  && s.timers.all (fun x => match x.st with
+      | .sleeping due => decide (due ≤ s.clock) || decide (t ≤ due)
+      | _ => true)
+
 def stepTime (s : AState) (t : Nat) : Option AState :=
-  let okBusy := match s.busy with
-    | some b => s.clock ≥ b || t ≤ b
-    | none => true
-  let okDl := match s.phase with
-    | .handling _ _ (some dl) => s.clock ≥ dl || t ≤ dl
-    | _ => true
-  let okTimers := s.timers.all (fun x => match x.st with
-    | .sleeping due => due ≤ s.clock || t ≤ due
-    | _ => true)
-  if s.clock ≤ t && okBusy && okDl && okTimers then some { s with clock := t } else none
+  if s.clock ≤ t ∧ s.timeOk t = true then some { s with clock := t } else none
 
 def stepCancel (s : AState) : Option AState :=
   if s.isDone then none else some { s.fail with abandon := s.openCb }
